@@ -72,7 +72,7 @@ impl From<StagedElements> for DeltaElements { fn from(_s: StagedElements) -> Sel
         # the staged changes of a publisher go into the snapshot AND into the next RRDP delta, the same elements to both
         U.loop_fn(RR, 'RrdpServer', 'apply_rrdp_updated', 0, 'vx_apply_one_publisher',
                   '(&mut self, publisher: PublisherHandle, staged_elements: StagedElements, rrdp_delta_elements: &mut DeltaElements)',
-                  body_only=True,
+                  body_only=True, pat_names=('publisher', 'staged_elements'),
                   ensures=[
                       ('snapshot_gets_the_staged_changes', 'final(self).snapshot == snap_apply(old(self).snapshot, publisher, staged_as_delta(staged_elements))'),
                       ('delta_gets_the_same_changes', '*final(rrdp_delta_elements) == de_append(*old(rrdp_delta_elements), staged_as_delta(staged_elements))'),
